@@ -295,6 +295,15 @@ fn run(ctx: &mut Ctx) {
             }
         }
     }
+    // ... and the vertical-rate codes again at other speeds (the rate does not depend on how fast the
+    // aircraft flies): standing still, 1 kt, around 50 kt, 120 kt, the largest speeds
+    for (vew, vns) in [(1u32, 1u32), (2, 1), (36, 36), (37, 36), (50, 2), (121, 1), (1, 121), (1023, 1023), (1023, 1), (0, 0)] {
+        for vrsign in 0..2 {
+            for vr in 0..512 {
+                vr_codes.push(Code { st: 1, dew: 1, vew, dns: 0, vns, vrsign, vr, ca: 5, diffsign: 0, diff: 0, pre_alt: 0 });
+            }
+        }
+    }
     for b in vr_codes.chunks(256) {
         job += 1;
         if ctx.mine(job) {
